@@ -80,6 +80,10 @@ type V2Case struct {
 	ExportOrder string `json:"export_order,omitempty"` // pre | post
 	// RevertTo: after the reloads, a copy of the database directory is rolled back to this version (SqliteDb.Revert, the
 	// library's rollback tool), the version is loaded and the history is continued with RevertContinue
+	// Quiet: no reads between the commits (a full read after every commit pulls every node back into memory, which is
+	// itself a schedule of touches; a client that only writes and commits leaves nodes evicted): only the hashes are
+	// compared along the way, contents and queries are checked once after the last commit
+	Quiet          bool     `json:"quiet,omitempty"`
 	RevertTo       int64    `json:"revert_to,omitempty"`
 	RevertContinue [][]V2Op `json:"revert_continue,omitempty"`
 }
@@ -354,10 +358,13 @@ func runV2(c V2Case) (v *Violation, st v2Stats) {
 			removedIn[ver] = true
 		}
 		// before the commit: working state
-		if x := checkContents(tr, &verModel{wroot, work}, fmt.Sprintf("working state of version %d", ver), true); x != nil {
-			return x, st
+		lastVersion := vi == len(c.Versions)-1
+		if !c.Quiet {
+			if x := checkContents(tr, &verModel{wroot, work}, fmt.Sprintf("working state of version %d", ver), true); x != nil {
+				return x, st
+			}
 		}
-		if vi < len(c.Queries) {
+		if vi < len(c.Queries) && !c.Quiet {
 			for _, q := range c.Queries[vi] {
 				if x := runQuery(tr, &verModel{wroot, work}, q, fmt.Sprintf("working state of version %d", ver), true); x != nil {
 					return x, st
@@ -393,10 +400,12 @@ func runV2(c V2Case) (v *Violation, st v2Stats) {
 			st.nonCheckpointCommits++
 		}
 		tag := fmt.Sprintf("version %d", ver)
-		if x := checkContents(tr, m, tag, true); x != nil {
-			return x, st
+		if !c.Quiet || lastVersion {
+			if x := checkContents(tr, m, tag, true); x != nil {
+				return x, st
+			}
 		}
-		if vi < len(c.Queries) {
+		if vi < len(c.Queries) && (!c.Quiet || lastVersion) {
 			for _, q := range c.Queries[vi] {
 				if x := runQuery(tr, m, q, tag, true); x != nil {
 					return x, st
@@ -967,6 +976,7 @@ func genVersionOps(t *rapid.T, work map[string][]byte, sorted bool, label string
 func genV2Case(t *rapid.T, prop string, reload bool) V2Case {
 	c := V2Case{Prop: prop, Reload: reload, Shard: rapid.Bool().Draw(t, "shard"), CI: rapid.SampledFrom([]int64{1, 2, 3, 5, 7, 1000}).Draw(t, "ci"),
 		HF: int8(rapid.IntRange(0, 1).Draw(t, "hf")), ED: rapid.SampledFrom([]int8{-1, 0, 1, 2, 8}).Draw(t, "ed")}
+	c.Quiet = rapid.IntRange(0, 2).Draw(t, "quiet") == 0
 	sorted := rapid.IntRange(0, 2).Draw(t, "sorted") != 0
 	work := map[string][]byte{}
 	nver := rapid.IntRange(1, 10).Draw(t, "nver")
@@ -1086,7 +1096,7 @@ func TestC19(t *testing.T) {
 		Count("C19", "iterator_queries_on_working_state", st.workingQueries)
 		Count("C19", "forced_checkpoints", st.forcedCheckpoints)
 		RecordCase("C19", c, c.CM == 0 && st.checkpoints >= 1 && st.nonCheckpointCommits >= 1 && st.removals >= 1 && st.rotations >= 1,
-			map[string]bool{"checkpoint_memory": c.CM > 0, "shard": c.Shard, fmt.Sprintf("ci_%d", c.CI): true, fmt.Sprintf("hf_%d", c.HF): true, fmt.Sprintf("ed_%d", c.ED): true, "rotations": st.rotations > 0, "removals": st.removals > 0, "forced_checkpoint": st.forcedCheckpoints > 0})
+			map[string]bool{"checkpoint_memory": c.CM > 0, "shard": c.Shard, fmt.Sprintf("ci_%d", c.CI): true, fmt.Sprintf("hf_%d", c.HF): true, fmt.Sprintf("ed_%d", c.ED): true, "rotations": st.rotations > 0, "removals": st.removals > 0, "forced_checkpoint": st.forcedCheckpoints > 0, "quiet_no_reads_between_commits": c.Quiet})
 	})
 }
 
